@@ -1,8 +1,62 @@
-(* C11 — placeholder; replaced when Proofs/DebugProofs.v is in. *)
+(* C11 — the debugger shows the true state, steps back exactly, and never crashes.  Property theorems only.
+   Model: coq/Model/Debug.v (history of snapshots, breakpoint set, running flag, capture buffers; [dtrans] is one
+   iteration of the loop of app/debug.rs, [dloop] iterates it).  [dinv code d]: the history of d is exactly the
+   sequence of true interpreter states — the snapshot at depth j is, up to its capture buffers, [nsteps j code], the
+   state after j executed commands — and every breakpoint is below the number of commands.
+   Programs are input-free (the debugger shares stdin with the program). *)
 From Coq Require Import List NArith Bool.
 Import ListNotations.
-From HV Require Import Model.Exec Model.Debug.
-Theorem C11_no_commands : forall fx11 fx13 fuel code, (0 < length code)%nat ->
-  debug_run fx11 fx13 (S fuel) code [] = ([DvPrompt], DEof).
-Proof. intros fx11 fx13 fuel code H. destruct code; [inversion H|]. reflexivity. Qed.
-Print Assumptions C11_no_commands.
+From HV Require Import Model.Parse Model.Exec Model.Repl Model.Debug Proofs.AppSpec Proofs.AppAll.
+Open Scope N_scope.
+
+Theorem C11_invariant_initially : forall code, code <> [] -> dinv code dinit.
+Proof. exact dinv_init_t. Qed.
+Print Assumptions C11_invariant_initially.
+
+(* every iteration of the loop — whatever the command word, breakpoint number, or mode — preserves it: so after
+   any sequence of next / previous / run / state / break N / break / help / unknown words the history is the true
+   sequence of states, `previous` having dropped exactly the newest snapshot each time it was used *)
+Theorem C11_invariant_preserved : forall code lines d evs lines' d', dinv code d ->
+  dtrans true true code lines d = (evs, inr (lines', d')) -> dinv code d'.
+Proof. exact dinv_step_t. Qed.
+Print Assumptions C11_invariant_preserved.
+
+(* the state displayed for a `state` request is the one after k = (history length - 1) commands, which by the invariant
+   is the interpreter's state after k commands *)
+Theorem C11_state_shows_truth : forall code line rest d, dinv code d -> running d = false ->
+  (exists s pc, hd_error (hist d) = Some (s, pc) /\ pc < N.of_nat (length code)) ->
+  is_word (hd [] (split_sp (trim line) [])) w_state 115 = true ->
+  is_word (hd [] (split_sp (trim line) [])) w_next 110 = false ->
+  is_word (hd [] (split_sp (trim line) [])) w_previous 112 = false ->
+  is_word (hd [] (split_sp (trim line) [])) w_run 114 = false ->
+  dtrans true true code (line :: rest) d = ([DvPrompt; DvState (N.of_nat (length (tl (hist d))))], inr (rest, d)).
+Proof. exact debug_state_t. Qed.
+Print Assumptions C11_state_shows_truth.
+
+Theorem C11_previous_restores : forall code line rest d s pc older, hist d = (s, pc) :: older -> older <> [] ->
+  running d = false -> pc < N.of_nat (length code) ->
+  is_word (hd [] (split_sp (trim line) [])) w_previous 112 = true ->
+  is_word (hd [] (split_sp (trim line) [])) w_next 110 = false ->
+  dtrans true true code (line :: rest) d = ([DvPrompt; DvMovedBack], inr (rest, mkd older (brk d) false (dio d))).
+Proof. exact debug_previous_t. Qed.
+Print Assumptions C11_previous_restores.
+
+(* no command sequence makes the debugger crash *)
+Theorem C11_never_crashes : forall fuel code lines evs e, code <> [] ->
+  debug_run true true fuel code lines = (evs, e) -> e <> DPanic.
+Proof. exact debug_run_no_panic_t. Qed.
+Print Assumptions C11_never_crashes.
+
+(* the pinned tree (before fix ac65e29) could: `break <number of commands>` then `break` *)
+Theorem C11_pinned_panics : exists fuel code lines, code <> [] /\ snd (debug_run false true fuel code lines) = DPanic.
+Proof. exact debug_pinned_panics_t. Qed.
+Print Assumptions C11_pinned_panics.
+
+Example C11_examples :
+  let code := map xcode_of_ucode (parse [54805;46;46;32;54637;46;32;54805;46;46;46;32;54637;46]) in
+  let L := fun s : list N => s ++ [10] in
+  debug_run true true 100 code [L [110]; L [115]; L [112]; L [98;32;50]; L [114]; L [114]]
+  = ([DvPrompt; DvShowCode [0]; DvFlush [] []; DvPrompt; DvState 1; DvPrompt; DvMovedBack; DvPrompt; DvSet 2;
+      DvPrompt; DvFlush [2] []; DvPrompt; DvFlush [3] []], DFinished).
+Proof. vm_compute. reflexivity. Qed.
+Print Assumptions C11_examples.
